@@ -154,6 +154,28 @@ def check(model, rep):
     # ---------------------------------------------------------------- R10.2
     rep.rule('R10.2', 'every public method maps a coherent platform to a coherent platform on every path (derived == f(stored poses))')
     coherence(model, rep, an, 'R10.2')
+    # ---------------------------------------------------------------- R10.7
+    rep.rule('R10.7', 'the validity an operation returns was evaluated for the state it leaves: after the validate() whose verdict is returned, the '
+                      'platform is only moved by a validating call or by one rigid motion of both plates (current relative transform)')
+    stale = {}
+    for (f_, rline, vline) in an.stale_verdicts:
+        stale.setdefault(f_.qualname, (f_, rline, vline))
+    n_verdicts = 0
+    for name_ in ('FK', 'IK'):
+        f_ = sp.methods.get(name_)
+        if f_ is None:
+            continue
+        n_verdicts += sum(1 for n in ast.walk(f_.node) if isinstance(n, ast.Call) and src(n.func) == 'self.validate')
+        hit = stale.get(f_.qualname)
+        rep.ob('R10.7', f_, 'returned validity describes the final state of ' + name_, hit is None,
+               'the verdict of validate() (line %s) is returned (line %s) after the platform was moved again without re-validation: '
+               '`valid` may be True for a configuration the platform is no longer in' % ((hit[2], hit[1]) if hit else ('?', '?')),
+               line=hit[1] if hit else None)
+    for q, (f_, rline, vline) in sorted(stale.items()):
+        if f_.name not in ('FK', 'IK'):
+            rep.ob('R10.7', f_, 'returned validity describes the final state of ' + f_.name, False,
+                   'the verdict of validate() (line %s) is returned (line %s) after the platform was moved again without re-validation' % (vline, rline), line=rline)
+    rep.floor('R10.7', 'validate() verdicts returned by FK / IK', n_verdicts, 2)
 
     # ---------------------------------------------------------------- R10.3
     rep.rule('R10.3', 'validator k: switch k, constraint k, `valid and temp_valid`, corrective action only if not donothing, then '
